@@ -216,7 +216,7 @@ def parse_template(lines):
                     m = re.match(r'^(\d+)\s+(.*)$', rest, re.S)
                     last = Clause(kw, [], m.group(2), loop=int(m.group(1)))
                     spec.clauses.append(last)
-                elif kw == 'at-start':
+                elif kw in ('at-start', 'at-end'):
                     last = Clause(kw, [], rest)
                     spec.clauses.append(last)
                 elif kw in ('before', 'after'):
@@ -559,6 +559,15 @@ class FnEmitter:
             elif cl.kind == 'at-start':
                 pos = toks[a_tok].end
                 edits.append(Edit(pos, pos, '\n' + self.ghost(cl) + '\n', rule='ghost'))
+        ends = [cl for cl in spec.clauses if cl.kind == 'at-end']
+        if ends:
+            # R7: bind the tail expression: `E }` -> `let vx_res = E; <ghost>; vx_res }`
+            t0 = self.tail_expr_start(a_tok, b_tok)
+            pos0 = toks[t0].start
+            pos1 = toks[b_tok - 1].end
+            edits.append(Edit(pos0, pos0, 'let vx_res = ', rule='R7'))
+            edits.append(Edit(pos1, pos1, ';\n' + '\n'.join(self.ghost(cl) for cl in ends) + '\nvx_res\n', rule='R7-end'))
+            self.fire('R7', 'tail expression let-bound to vx_res')
 
         # --- R4-entry: `.entry(K).or_insert_with(F)` -> `.vx_entry_or_insert_with(K, F)` (F a fn path)
         #               `.entry(K).or_insert_with(|| Box::new(T::new()))` -> `.vx_entry_or_box_new(K, T::new)`
@@ -572,7 +581,7 @@ class FnEmitter:
                 arg = toks[c1 + 4:c2]
                 argtxt = ' '.join(x.text for x in arg)
                 ka, kb = toks[i + 2].start, toks[c1 - 1].end
-                m_box = re.match(r'^\| \| Box :: new \( (\w+) :: new \( \) \)$', argtxt)
+                m_box = re.match(r'^\|\| Box :: new \( (\w+) :: new \( \) \)$', argtxt)
                 m_path = re.match(r'^\w+( :: \w+)*$', argtxt)
                 if m_box:
                     fnpath = m_box.group(1) + '::new'
@@ -615,6 +624,47 @@ class FnEmitter:
                 parts.append('            /*@%s*/ %s,\n' % (cl.cid, cl.text.replace('\n', '\n            ')))
         parts.append('    ')
         edits.append(Edit(pos, pos, ''.join(parts), rule='loop-clauses'))
+
+    def tail_expr_start(self, a_tok, b_tok):
+        """Token index where the tail expression of the block [a_tok..b_tok] starts."""
+        toks = self.sf.toks
+        i = a_tok + 1
+        start = i
+        last_start = None
+        while i < b_tok:
+            start = i
+            t = toks[i]
+            blocklike = t.text == '{' or (t.kind == 'ident' and t.text in ('if', 'while', 'for', 'loop', 'match', 'unsafe')) \
+                or (t.kind == 'lifetime' and toks[i + 1].text == ':')
+            j = i
+            ended = False
+            while j < b_tok:
+                tj = toks[j]
+                if tj.text in ('(', '[', '{'):
+                    c = match_close(toks, j)
+                    if tj.text == '{' and blocklike:
+                        nxt = toks[c + 1]
+                        if nxt.kind == 'ident' and nxt.text == 'else':
+                            j = c + 1
+                            continue
+                        if nxt.text in ('.', '?') or c + 1 >= b_tok:
+                            j = c + 1
+                            blocklike = False
+                            continue
+                        j = c + 1
+                        ended = True
+                        break
+                    j = c + 1
+                    continue
+                if tj.text == ';':
+                    j += 1
+                    ended = True
+                    break
+                j += 1
+            if not ended:
+                return start
+            i = j
+        raise GenError('at-end: body has no tail expression', self.spec.qname)
 
     def stmt_end(self, i, limit):
         """Token index of the last token of the statement starting at token i."""
@@ -958,6 +1008,11 @@ class Generator:
                         twins.append('/* end twin */')
                 except (GenError, LexError) as e:
                     errors.append((spec.qname, str(e)))
+                    records.append({'fn': spec.qname, 'file': spec.file, 'sha256': '', 'fired': [], 'orig': '',
+                                    'lines': (0, 0), 'default_tags': spec.default, 'noreturn': spec.noreturn,
+                                    'gen_error': str(e),
+                                    'clauses': [{'cid': c.cid, 'kind': c.kind, 'tags': c.tags, 'text': c.text} for c in spec.clauses
+                                                if c.kind in ('requires', 'ensures', 'decreases') or c.kind.startswith('loop_')]})
         if twins:
             # place the twins just before the closing of the verus! block
             idx = None
